@@ -337,6 +337,51 @@ impl<'ast> Visit<'ast> for V {
         );
         visit::visit_item_macro(self, m);
     }
+    fn visit_field(&mut self, f: &'ast syn::Field) {
+        self.record_attrs(&f.attrs, "field");
+        visit::visit_field(self, f);
+    }
+    fn visit_variant(&mut self, v: &'ast syn::Variant) {
+        self.record_attrs(&v.attrs, "variant");
+        visit::visit_variant(self, v);
+    }
+    fn visit_arm(&mut self, a: &'ast syn::Arm) {
+        self.record_attrs(&a.attrs, "arm");
+        visit::visit_arm(self, a);
+    }
+    fn visit_field_value(&mut self, f: &'ast syn::FieldValue) {
+        self.record_attrs(&f.attrs, "field value");
+        visit::visit_field_value(self, f);
+    }
+    fn visit_item_static(&mut self, i: &'ast syn::ItemStatic) {
+        self.record_attrs(&i.attrs, &format!("static {}", i.ident));
+        visit::visit_item_static(self, i);
+    }
+    fn visit_item_type(&mut self, i: &'ast syn::ItemType) {
+        self.record_attrs(&i.attrs, &format!("type {}", i.ident));
+        visit::visit_item_type(self, i);
+    }
+    fn visit_impl_item_const(&mut self, i: &'ast syn::ImplItemConst) {
+        self.record_attrs(&i.attrs, &format!("assoc const {}", i.ident));
+        visit::visit_impl_item_const(self, i);
+    }
+    fn visit_impl_item_type(&mut self, i: &'ast syn::ImplItemType) {
+        self.record_attrs(&i.attrs, &format!("assoc type {}", i.ident));
+        visit::visit_impl_item_type(self, i);
+    }
+    fn visit_trait_item_const(&mut self, i: &'ast syn::TraitItemConst) {
+        self.record_attrs(&i.attrs, &format!("assoc const {}", i.ident));
+        visit::visit_trait_item_const(self, i);
+    }
+    fn visit_generic_param(&mut self, g: &'ast syn::GenericParam) {
+        let attrs: &[syn::Attribute] = match g {
+            syn::GenericParam::Type(t) => &t.attrs,
+            syn::GenericParam::Lifetime(l) => &l.attrs,
+            syn::GenericParam::Const(c) => &c.attrs,
+        };
+        self.record_attrs(attrs, "generic parameter");
+        visit::visit_generic_param(self, g);
+    }
     fn visit_expr(&mut self, e: &'ast syn::Expr) {
         // attributes on expressions / statements
         let attrs: &[syn::Attribute] = match e {
@@ -346,6 +391,31 @@ impl<'ast> Visit<'ast> for V {
             syn::Expr::Call(x) => &x.attrs,
             syn::Expr::MethodCall(x) => &x.attrs,
             syn::Expr::Macro(x) => &x.attrs,
+            syn::Expr::Match(x) => &x.attrs,
+            syn::Expr::Return(x) => &x.attrs,
+            syn::Expr::Binary(x) => &x.attrs,
+            syn::Expr::Unary(x) => &x.attrs,
+            syn::Expr::Assign(x) => &x.attrs,
+            syn::Expr::Path(x) => &x.attrs,
+            syn::Expr::Lit(x) => &x.attrs,
+            syn::Expr::Field(x) => &x.attrs,
+            syn::Expr::Struct(x) => &x.attrs,
+            syn::Expr::Tuple(x) => &x.attrs,
+            syn::Expr::Array(x) => &x.attrs,
+            syn::Expr::Closure(x) => &x.attrs,
+            syn::Expr::ForLoop(x) => &x.attrs,
+            syn::Expr::While(x) => &x.attrs,
+            syn::Expr::Loop(x) => &x.attrs,
+            syn::Expr::Paren(x) => &x.attrs,
+            syn::Expr::Reference(x) => &x.attrs,
+            syn::Expr::Index(x) => &x.attrs,
+            syn::Expr::Cast(x) => &x.attrs,
+            syn::Expr::Try(x) => &x.attrs,
+            syn::Expr::Unsafe(x) => &x.attrs,
+            syn::Expr::Break(x) => &x.attrs,
+            syn::Expr::Continue(x) => &x.attrs,
+            syn::Expr::Range(x) => &x.attrs,
+            syn::Expr::Repeat(x) => &x.attrs,
             _ => &[],
         };
         self.record_attrs(attrs, "expr");
